@@ -55,6 +55,19 @@ def dump(path: Path, data, fmt):
         path.write_text(yaml.safe_dump(data, sort_keys=False, allow_unicode=True))
 
 
+def write_config_file(root_dir, fname, f):
+    root_dir = Path(root_dir)
+
+    def file_abs(x):
+        return str(root_dir / x)
+    fmt = fname.rsplit('.', 1)[-1]
+    if f.get('multi'):
+        data = {'configs': {p: part_data(pd, file_abs) for p, pd in f['parts'].items()}}
+    else:
+        data = part_data(f['parts'][''], file_abs)
+    dump(root_dir / fname, data, fmt)
+
+
 def emit(spec, root_dir: Path):
     """writes <root_dir>/src/<pkg>/... and <root_dir>/<config files>; returns dict of useful paths"""
     root_dir = Path(root_dir)
@@ -76,12 +89,7 @@ def emit(spec, root_dir: Path):
         return str(root_dir / f)
 
     for fname, f in spec.get('files', {}).items():
-        fmt = fname.rsplit('.', 1)[-1]
-        if f.get('multi'):
-            data = {'configs': {p: part_data(pd, file_abs) for p, pd in f['parts'].items()}}
-        else:
-            data = part_data(f['parts'][''], file_abs)
-        dump(root_dir / fname, data, fmt)
+        write_config_file(root_dir, fname, f)
     for fname, c in spec.get('context_files', {}).items():
         dump(root_dir / fname, context_data(c, file_abs), fname.rsplit('.', 1)[-1])
     return {'src': str(src), 'root': str(root_dir)}
